@@ -152,7 +152,7 @@ func TestC19Sched(t *testing.T) {
 // panic, no fatal runtime error, no deadlock (watchdog).  A failure cannot be
 // replayed exactly; the saved case is re-run in a loop to re-find it.
 func TestC05Par(t *testing.T) {
-	st := NewStats("C05", "real-parallel phase: the workers of the scheduler engine (1 mutator incl. SetCollection/RemoveCollection of a third collection, 1 flusher, 1-3 readers whose visitor callbacks also call AllocStats/GetCollectionNames/Stats) run as real goroutines side by side, each op list repeated 8-40 times; same post-hoc oracle with windows taken from an atomic clock; no panic, no fatal runtime error (concurrent map access), no deadlock (watchdog). Failures are re-searched by re-running the saved case up to 400 times. Non-trivial = at least one reader window overlapped a mutation.",
+	st := NewStats("C05", "real-parallel phase: the workers of the scheduler engine (1 mutator incl. SetCollection/RemoveCollection of a third collection, 1 flusher, 1-3 readers whose visitor callbacks also call AllocStats/GetCollectionNames/Stats and a share of whose ops read through one snapshot taken before the phase) run as real goroutines side by side, each op list repeated 8-40 times; same post-hoc oracle with windows taken from an atomic clock; no panic, no fatal runtime error (concurrent map access), no deadlock (watchdog). Failures are re-searched by re-running the saved case up to 400 times. Non-trivial = at least one reader window overlapped a mutation.",
 		append(append([]string{}, commonAssumptions...), "real-parallel failures are schedule dependent: a saved case is confirmed by re-running it, not by exact replay"))
 	defer func() {
 		if p := outPath(); p != "" {
@@ -165,6 +165,14 @@ func TestC05Par(t *testing.T) {
 		c.Cfg.Profile = "C05-par"
 		c.Cfg.Sched = nil
 		c.Cfg.Extra = []int{8 + uni(rt, 33, "rep")}
+		// a share of the reader ops go through one snapshot taken before the phase
+		for wi := 2; wi < len(c.Cfg.Workers); wi++ {
+			for j := range c.Cfg.Workers[wi] {
+				if c.Cfg.Workers[wi][j].K != OpSnap && uni(rt, 10, "viasnap") < 3 {
+					c.Cfg.Workers[wi][j].S = 1
+				}
+			}
+		}
 		// collection management by the mutating goroutine
 		nadm := uni(rt, 4, "nadmin")
 		replace := uni(rt, 4, "replacemode") == 0
